@@ -39,7 +39,8 @@ FRAMES = [
 
 
 def cases(tier, seed):
-    return [dict(ubm=u, sset=ss, mset=ms, seed=seed) for u in range(len(UBMS)) for ss in range(5) for ms in range(4)]
+    msets = range(4) if tier == "quick" else range(10)
+    return [dict(ubm=u, sset=ss, mset=ms, seed=seed) for u in range(len(UBMS)) for ss in range(5) for ms in msets]
 
 
 def _ubm(u, s, o):
@@ -88,7 +89,11 @@ def _models(ubm, ms, s):
         return [m + d1, m + d2, m.copy()]
     if ms == 2:
         return [m + 2.0 * d1 - 0.5 * d2, m + d1, m + d2]
-    return [m.copy(), m - d2]
+    if ms == 3:
+        return [m.copy(), m - d2]
+    # thorough tier: further deterministic offset patterns
+    d3 = (np.arange(C * D, dtype=float).reshape(C, D) * (ms - 3) % 5 - 2.0) * 0.25 * s
+    return [m + d3, m - 0.5 * d3 + d1, m + d2 * (ms - 3)]
 
 
 def run_case(case):
